@@ -34,3 +34,38 @@ Print Assumptions c05_write_seen_through_all_paths.
 Theorem c05_refused_append_unchanged : forall ph l x, atomic same (api_append ph l x).
 Proof. exact atomic_api_append. Qed.
 Print Assumptions c05_refused_append_unchanged.
+
+(* ---- dimensions linked to an array (model: Pure/DimLink.v, tied by the dimension histories) *)
+From NixV Require Import Pure.DimLink Proofs.DimLinkProofs.
+From Coq Require Import ZArith List.
+
+(* a linked range dimension reports the target's current vector as its ticks and the target's unit
+   and label as its own - also after any sequence of later writes to the target *)
+Theorem c05_linked_dimension_is_alias : forall ops s idx,
+  forallb is_target_op ops = true -> r_link (rd s) = Some idx ->
+  let s' := fold_left (fun st o => fst (dstep st o)) ops s in
+  get_ticks s' = link_values (tg s') idx /\ get_unit s' = t_unit (tg s') /\ get_label s' = t_label (tg s').
+Proof. exact alias_after_target_writes. Qed.
+Print Assumptions c05_linked_dimension_is_alias.
+Theorem c05_linked_set_dimension : forall s idx, s_link (sd s) = Some idx -> get_labels s = link_values (tg s) idx.
+Proof. exact linked_set_is_alias. Qed.
+Print Assumptions c05_linked_set_dimension.
+(* a unit or label set through the linked dimension is set on the target *)
+Theorem c05_dimension_write_through : forall s idx u, r_link (rd s) = Some idx ->
+  (let s' := fst (dstep s (RSetUnit u)) in
+   t_unit (tg s') = Some u /\ rd s' = rd s /\ sd s' = sd s /\ t_label (tg s') = t_label (tg s) /\ t_cells (tg s') = t_cells (tg s)) /\
+  (let s' := fst (dstep s (RSetLabel u)) in
+   t_label (tg s') = Some u /\ rd s' = rd s /\ sd s' = sd s /\ t_unit (tg s') = t_unit (tg s) /\ t_cells (tg s') = t_cells (tg s)).
+Proof. intros s idx u H. split; [apply (set_unit_through_link s idx u H) | apply (set_label_through_link s idx u H)]. Qed.
+Print Assumptions c05_dimension_write_through.
+(* setting explicit ticks replaces the link and vice versa *)
+Theorem c05_ticks_and_link_replace_each_other : forall s,
+  (forall l, descends l = false ->
+     let s' := fst (dstep s (RSetTicks l)) in
+     snd (dstep s (RSetTicks l)) = None /\ r_link (rd s') = None /\ get_ticks s' = Some l /\ tg s' = tg s /\ sd s' = sd s) /\
+  (forall idx, link_check (tg s) idx = None ->
+     let s' := fst (dstep s (RLink idx)) in
+     snd (dstep s (RLink idx)) = None /\ r_ticks (rd s') = None /\ r_link (rd s') = Some idx /\
+     get_ticks s' = link_values (tg s) idx /\ tg s' = tg s /\ sd s' = sd s).
+Proof. intros s. split; [intros l H; apply ticks_replace_link, H | intros idx H; apply link_replaces_ticks, H]. Qed.
+Print Assumptions c05_ticks_and_link_replace_each_other.
